@@ -1,17 +1,323 @@
 import EraVerif.Proofs.Wire
+import EraVerif.Proofs.Conv
 import EraVerif.Gen.Schemas
 
 /-!
-# C09 — Wire encoding is lossless and canonical (work in progress)
+# C09 — Wire encoding is lossless and canonical
+
+*Statement.* Every value of every message type that is sent, signed or stored decodes back to an equal value after
+encoding, and equal values always encode to identical bytes regardless of how they were constructed or in which
+order fields and repeated entries were produced, so hashes and signatures computed by different nodes agree. Any
+valid protobuf serialisation of a known message (fields reordered, repeated scalars packed or unpacked) normalises
+to that same canonical byte string.
+
+## What is proved here, and about what
+
+**Wire layer** (`Model/Wire.lean`, a transcription of `proto_fmt.rs` + the `quick-protobuf` reader/writer calls it
+makes; schema-generic: *every* descriptor table, *every* message, *every* byte string — no bound on sizes or
+nesting). The objects:
+
+* `canonical tbl idx b` — `canonical_raw(b, desc)`;
+* `Tree` — the generic value of a message (`leaf`: canonical byte form of a scalar / bytes value; `node`: ascending
+  map field number ↦ values); `encode t` — the canonical writer; `decode` — the parser `canonical_raw` runs;
+* `SerMsg tbl d idx fs b` (`Proofs/Wire.lean`) — "`b` is a valid protobuf serialisation of the message value `fs`":
+  records in any order, each repeated scalar split into packed / unpacked records at will (also empty packed
+  records), tags / lengths / varints minimal or padded up to 10 bytes, sub-messages serialised in the same liberal
+  way to any depth;
+* `WF tbl d idx fs` — "`fs` is a well-formed value of message `tbl[idx]`" (ascending declared field numbers, singular
+  fields single-valued, leaves of the right shape, sizes below the 4 GiB a `u32` length prefix can express).
+
+**Type layer** (`Model/Conv.lean`): the conversions that are not field-by-field copies.
+
+**Schemas**: the table regenerated from every `.proto` file under `/repo/node` on each run satisfies the build-time
+restriction of `protobuf_build/src/canonical.rs`.
+
+The structural `read`/`build` pairs (plain field copies) and `prost`'s own encoder are *not* modelled; they are
+covered by the correspondence run and the monitors on the implementation (see `tools/reg/C09.py`).
 -/
 
 namespace EraVerif.Props.C09
-open EraVerif.Model.Wire EraVerif.Proofs.Wire
+open EraVerif.Model.Wire EraVerif.Model.Conv EraVerif.Proofs.Wire EraVerif.Proofs.Conv
+
+/-! ## 1. Varints -/
 
 /-- `read_varint64 ∘ write_varint = id` on every `u64`, whatever follows in the buffer. -/
 theorem varint_roundtrip (n : Nat) (h : n < 2 ^ 64) (rest : Bytes) :
-    readVarint64 (writeVarint n ++ rest) = .ok (n, rest) := by
-  have := readVarintAux_write n 9 0 0 rest (by omega)
-  simp [readVarint64, this, Nat.mod_eq_of_lt h]
+    readVarint64 (writeVarint n ++ rest) = .ok (n, rest) :=
+  readVarint64_enc (writeVarint_enc h) h rest
+
+/-- Every valid encoding of `n` — minimal or padded with continuation bytes, 1 to 10 bytes — reads back as `n`. -/
+theorem varint_any_encoding_accepted (n : Nat) (h : n < 2 ^ 64) (bs rest : Bytes) (he : EncVarint n bs) :
+    readVarint64 (bs ++ rest) = .ok (n, rest) :=
+  readVarint64_enc he h rest
+
+/-- `write_varint` is minimal: no complete varint with the same value is shorter. -/
+theorem varint_minimal (k : Nat) (bs : Bytes) (h : IsVarintN k bs) :
+    (writeVarint (varintVal bs)).length ≤ k :=
+  writeVarint_minimal h
+
+/-- non-vacuity: `85 00` is a (padded) 2-byte varint of value 5, whose minimal form `05` has one byte -/
+example : IsVarintN 2 [0x85, 0x00] ∧ varintVal [0x85, 0x00] = 5 ∧ writeVarint 5 = [0x05] :=
+  ⟨.more _ _ _ (by decide) (.last _ (by decide)), by decide, by decide⟩
+
+/-! ## 2. `canonical_raw` refines "parse, then write canonically" -/
+
+/-- **Refinement to the specification**: for every table, message, fuel and buffer, `canonical_raw` returns exactly
+the canonical encoding of the value the parser sees, and fails exactly when (and as) the parser fails. -/
+theorem canonicalRaw_eq_encode_decode (tbl : Table) (fuel idx : Nat) (b : Bytes) :
+    canonicalRaw tbl fuel idx b = (decode tbl fuel idx b).map encode :=
+  canonicalRaw_eq tbl fuel idx b
+
+/-! ## 3. Any valid serialisation normalises to the canonical bytes -/
+
+/-- **The parser accepts every valid serialisation and returns the value it denotes.** -/
+theorem parse_of_any_serialisation (tbl : Table) (d idx : Nat) (fs : List (Nat × List Tree)) (b : Bytes)
+    (h : SerMsg tbl d idx fs b) (fuel : Nat) (hf : d ≤ fuel) : decode tbl fuel idx b = .ok (.node fs) :=
+  decode_of_ser tbl d idx fs b h fuel hf
+
+/-- **Canonicity.** Whatever valid serialisation `b` of the message value `fs` a peer produced (records reordered,
+repeated scalars packed / unpacked / split, varints padded, the same inside sub-messages), `canonical_raw(b)` is the
+canonical encoding of `fs` — the byte string every node hashes and signs. -/
+theorem canonical_of_any_reserialisation (tbl : Table) (d idx : Nat) (fs : List (Nat × List Tree)) (b : Bytes)
+    (h : SerMsg tbl d idx fs b) : canonical tbl idx b = .ok (encode (.node fs)) :=
+  canonical_of_ser tbl d idx fs b h
+
+/-- Two serialisations of the same value have the same canonical form. -/
+theorem serialisations_of_one_value_agree (tbl : Table) (d₁ d₂ idx : Nat) (fs : List (Nat × List Tree))
+    (b₁ b₂ : Bytes) (h₁ : SerMsg tbl d₁ idx fs b₁) (h₂ : SerMsg tbl d₂ idx fs b₂) :
+    canonical tbl idx b₁ = canonical tbl idx b₂ := by
+  rw [canonical_of_ser tbl d₁ idx fs b₁ h₁, canonical_of_ser tbl d₂ idx fs b₂ h₂]
+
+/-- "in any order": exchanging two adjacent records of different fields does not change the denoted value -/
+theorem record_order_irrelevant (xs ys : List Chunk) (a b : Chunk) (h : a.num ≠ b.num) :
+    groupPairs (xs ++ a :: b :: ys) = groupPairs (xs ++ b :: a :: ys) :=
+  groupPairs_swap xs ys a b h
+
+/-- "packed or unpacked": splitting a record of a field into two adjacent records (or merging two) does not change
+the denoted value -/
+theorem record_split_irrelevant (xs ys : List Chunk) (n : Nat) (v₁ v₂ : List (Tree × Bytes)) (b₁ b₂ b : Bytes) :
+    groupPairs (xs ++ ⟨n, v₁, b₁⟩ :: ⟨n, v₂, b₂⟩ :: ys) = groupPairs (xs ++ ⟨n, v₁ ++ v₂, b⟩ :: ys) :=
+  groupPairs_split xs ys n v₁ v₂ b₁ b₂ b
+
+/-! ### Non-vacuity: a concrete non-canonical serialisation
+
+Message `T { optional uint64 a = 1; repeated uint64 r = 2; optional T sub = 3; }`, value `a = 5, r = [1, 2]`.
+Canonical bytes `08 05 12 02 01 02`; the serialisation below sends `r` first, as two unpacked records, then `a` with
+a padded varint: `10 01 10 02 08 85 00`. -/
+
+def exTable : Table :=
+  [{ name := "T", proto3 := true, fields := [
+      { num := 1, kind := .varint, repeated := false, explicitPresence := true },
+      { num := 2, kind := .varint, repeated := true, explicitPresence := false },
+      { num := 3, kind := .msg 0, repeated := false, explicitPresence := true }] }]
+
+def exValue : List (Nat × List Tree) :=
+  [(1, [.leaf .varint [0x05]]), (2, [.leaf .varint [0x01], .leaf .varint [0x02]])]
+
+def exBytes : Bytes := [0x10, 0x01, 0x10, 0x02, 0x08, 0x85, 0x00]
+
+theorem exOne (b : UInt8) (h : b.toNat < 128) : EncVarint b.toNat [b] :=
+  ⟨1, by decide, .last b h, by simp [varintVal]; omega⟩
+
+theorem exSer : SerMsg exTable 1 0 exValue exBytes := by
+  refine ⟨exTable[0], [⟨2, [(.leaf .varint [0x01], [0x01])], [0x10, 0x01]⟩,
+                       ⟨2, [(.leaf .varint [0x02], [0x02])], [0x10, 0x02]⟩,
+                       ⟨1, [(.leaf .varint [0x05], [0x05])], [0x08, 0x85, 0x00]⟩], rfl, rfl, ?_, rfl, rfl, ?_⟩
+  · intro c hc
+    simp only [List.mem_cons, List.not_mem_nil, or_false] at hc
+    rcases hc with rfl | rfl | rfl
+    · refine ⟨RawTLV.single (fd := exTable[0].fields[1]) (w := .varint) (tg := [0x10]) (vb := [0x01]) rfl
+        ⟨rfl, Or.inl rfl⟩ rfl (by decide) ⟨by decide, exOne 0x10 (by decide)⟩
+        ⟨1, by decide, by decide, exOne 0x01 (by decide)⟩, ?_⟩
+      intro fd hfd p hp
+      have : fd = exTable[0].fields[1] := by simpa [exTable, MsgSchema.getField] using hfd.symm
+      subst this; simp at hp; subst hp; rfl
+    · refine ⟨RawTLV.single (fd := exTable[0].fields[1]) (w := .varint) (tg := [0x10]) (vb := [0x02]) rfl
+        ⟨rfl, Or.inl rfl⟩ rfl (by decide) ⟨by decide, exOne 0x10 (by decide)⟩
+        ⟨2, by decide, by decide, exOne 0x02 (by decide)⟩, ?_⟩
+      intro fd hfd p hp
+      have : fd = exTable[0].fields[1] := by simpa [exTable, MsgSchema.getField] using hfd.symm
+      subst this; simp at hp; subst hp; rfl
+    · refine ⟨RawTLV.single (fd := exTable[0].fields[0]) (w := .varint) (tg := [0x08]) (vb := [0x85, 0x00]) rfl
+        ⟨rfl, Or.inr rfl⟩ rfl (by decide) ⟨by decide, exOne 0x08 (by decide)⟩
+        ⟨5, by decide, by decide, 2, by decide, .more _ _ _ (by decide) (.last _ (by decide)), by decide⟩, ?_⟩
+      intro fd hfd p hp
+      have : fd = exTable[0].fields[0] := by simpa [exTable, MsgSchema.getField] using hfd.symm
+      subst this; simp at hp; subst hp; rfl
+  · intro p hp hlen fd hfd
+    have hp' : p = (1, [(Tree.leaf .varint [0x05], [0x05])]) ∨
+        p = (2, [(Tree.leaf .varint [0x01], [0x01]), (Tree.leaf .varint [0x02], [0x02])]) := by
+      simpa [groupPairs, groupFrom, FieldMap.push] using hp
+    rcases hp' with rfl | rfl
+    · simp at hlen
+    · have : fd = exTable[0].fields[1] := by simpa [exTable, MsgSchema.getField] using hfd.symm
+      subst this; rfl
+
+/-- the theorem applies to it, and what it says is what the executable model computes -/
+example : canonical exTable 0 exBytes = .ok [0x08, 0x05, 0x12, 0x02, 0x01, 0x02] := by
+  rw [canonical_of_any_reserialisation exTable 1 0 exValue exBytes exSer]; decide
+
+/-! ## 4. Lossless, injective, idempotent on canonical forms -/
+
+/-- The canonical encoding of a well-formed value is itself one of its valid serialisations. -/
+theorem encode_is_a_serialisation (tbl : Table) (d idx : Nat) (fs : List (Nat × List Tree))
+    (h : WF tbl d idx fs) : SerMsg tbl d idx fs (encode (.node fs)) :=
+  wf_ser tbl d idx fs h
+
+/-- **Lossless.** Parsing the canonical encoding of a well-formed value returns exactly that value. -/
+theorem decode_encode_id (tbl : Table) (d idx : Nat) (fs : List (Nat × List Tree)) (h : WF tbl d idx fs)
+    (fuel : Nat) (hf : d ≤ fuel) : decode tbl fuel idx (encode (.node fs)) = .ok (.node fs) :=
+  decode_encode tbl d idx fs h fuel hf
+
+/-- **Canonical forms are fixed points** of `canonical_raw` (idempotence on everything `encode` produces). -/
+theorem canonical_fixed_point (tbl : Table) (d idx : Nat) (fs : List (Nat × List Tree)) (h : WF tbl d idx fs) :
+    canonical tbl idx (encode (.node fs)) = .ok (encode (.node fs)) :=
+  canonical_of_ser tbl d idx fs _ (wf_ser tbl d idx fs h)
+
+/-- **Injective.** Two well-formed values with the same encoding are the same value: equal bytes (hence equal hashes
+and signature inputs) mean equal messages, and — with `canonical_of_any_reserialisation` — conversely. -/
+theorem encode_injective (tbl : Table) (d₁ d₂ idx : Nat) (fs₁ fs₂ : List (Nat × List Tree))
+    (h₁ : WF tbl d₁ idx fs₁) (h₂ : WF tbl d₂ idx fs₂) (he : encode (.node fs₁) = encode (.node fs₂)) :
+    fs₁ = fs₂ := by
+  have e₁ := decode_encode tbl d₁ idx fs₁ h₁ (max d₁ d₂) (Nat.le_max_left _ _)
+  have e₂ := decode_encode tbl d₂ idx fs₂ h₂ (max d₁ d₂) (Nat.le_max_right _ _)
+  simp only [encode, Tree.payload] at he
+  rw [he, e₂] at e₁
+  injection e₁ with e₁
+  injection e₁ with e₁
+  exact e₁.symm
+
+/-- **Agreement of canonical forms characterises equality of values**: serialisations `b₁` of `fs₁` and `b₂` of `fs₂`
+(well-formed values, any valid serialisations) have the same canonical bytes iff `fs₁ = fs₂`. -/
+theorem canonical_eq_iff (tbl : Table) (d₁ d₂ e₁ e₂ idx : Nat) (fs₁ fs₂ : List (Nat × List Tree)) (b₁ b₂ : Bytes)
+    (w₁ : WF tbl e₁ idx fs₁) (w₂ : WF tbl e₂ idx fs₂)
+    (s₁ : SerMsg tbl d₁ idx fs₁ b₁) (s₂ : SerMsg tbl d₂ idx fs₂ b₂) :
+    canonical tbl idx b₁ = canonical tbl idx b₂ ↔ fs₁ = fs₂ := by
+  rw [canonical_of_ser tbl d₁ idx fs₁ b₁ s₁, canonical_of_ser tbl d₂ idx fs₂ b₂ s₂]
+  constructor
+  · intro h
+    injection h with h
+    exact encode_injective tbl e₁ e₂ idx fs₁ fs₂ w₁ w₂ h
+  · intro h; rw [h]
+
+/-- non-vacuity: the example value is well-formed -/
+theorem exWF : WF exTable 1 0 exValue := by
+  refine ⟨exTable[0], rfl, rfl, by decide, ?_⟩
+  intro p hp
+  simp only [exValue, List.mem_cons, List.not_mem_nil, or_false] at hp
+  rcases hp with rfl | rfl
+  · refine ⟨exTable[0].fields[0], rfl, ⟨rfl, Or.inr rfl⟩, by decide, by simp, by simp, ?_, fun _ => by decide⟩
+    intro v hv; simp at hv; subst hv
+    exact ⟨5, by decide, by decide⟩
+  · refine ⟨exTable[0].fields[1], rfl, ⟨rfl, Or.inl rfl⟩, by decide, by simp, fun _ => rfl, ?_, fun _ => by decide⟩
+    intro v hv; simp at hv
+    rcases hv with rfl | rfl
+    · exact ⟨1, by decide, by decide⟩
+    · exact ⟨2, by decide, by decide⟩
+
+example : decode exTable 1 0 (encode (.node exValue)) = .ok (.node exValue) :=
+  decode_encode_id exTable 1 0 exValue exWF 1 (Nat.le_refl _)
+
+/-! ## 5. What is rejected -/
+
+/-- A buffer made of well-formed records followed by a record that `read_fields` refuses — wire type 3/4/6/7, an
+unknown field number, a map field, a field with implicit presence, a wire type that is neither the field's nor LEN —
+is refused by `canonical_raw`, with that error, whatever follows. -/
+theorem reject_bad_record (tbl : Table) (idx : Nat) (m : MsgSchema) (hm : tbl[idx]? = some m)
+    (hp : m.proto3 = true) (cs : List Chunk) (rest : Bytes) (e : Err)
+    (hall : ∀ c ∈ cs, RawTLV m c.num (c.vals.map (·.2)) c.bytes) (hbad : BadHead m rest e) :
+    canonical tbl idx (chunksBytes cs ++ rest) = .error e :=
+  canonical_reject tbl idx hm hp cs rest e hall hbad
+
+/-- A non-proto3 message is refused outright. -/
+theorem reject_not_proto3 (tbl : Table) (idx : Nat) (m : MsgSchema) (hm : tbl[idx]? = some m)
+    (hp : m.proto3 = false) (b : Bytes) : canonical tbl idx b = .error .notProto3 :=
+  canonical_reject_not_proto3 tbl idx hm hp b
+
+/-- A singular field that ends up with several values (two records, or one packed record with two elements) is
+refused. -/
+theorem reject_singular_with_several_values (tbl : Table) (idx : Nat) (m : MsgSchema) (hm : tbl[idx]? = some m)
+    (hp : m.proto3 = true) (cs : List Chunk) (hall : ∀ c ∈ cs, RawTLV m c.num (c.vals.map (·.2)) c.bytes)
+    (p : Nat × List (Tree × Bytes)) (hmem : p ∈ groupPairs cs) (hlen : 1 < p.2.length)
+    (fd : FieldSchema) (hfd : m.getField p.1 = some fd) (hrep : fd.repeated = false) :
+    ∀ out, canonical tbl idx (chunksBytes cs) ≠ .ok out :=
+  canonical_reject_multi tbl idx hm hp cs hall hmem hlen hfd hrep
+
+/-- non-vacuity: an unknown field number (4) after nothing, and field 1 sent twice -/
+example : canonical exTable 0 [0x20, 0x01] = .error .unknownField := by decide
+example : canonical exTable 0 [0x08, 0x01, 0x08, 0x02] = .error .multi := by decide
+example : canonical exTable 0 [0x0b, 0x01] = .error .wireType := by decide
+example : canonical exTable 0 [0x09, 1, 2, 3, 4, 5, 6, 7, 8] = .error .unexpectedWire := by decide
+
+/-! ## 6. The schemas of the repository -/
+
+/-- **Every message of every `.proto` file under `/repo/node`** (the table is regenerated by `tools/translate.py` on
+each run) is proto3, has no map field, gives every singular field explicit presence, has distinct field numbers
+below 2²⁹, and refers only to messages of the table — the build-time restriction of `protobuf_build/src/canonical.rs`,
+re-established on the current sources. -/
+theorem all_schemas_support_canonical : supportsCanonical EraVerif.Gen.Schemas.table = true := by decide
+
+/-- What the restriction buys: for every field of every message of such a table `read_fields` raises none of its
+schema errors, and tags fit the `u32` they are read into. -/
+theorem schema_restriction_sufficient (tbl : Table) (h : supportsCanonical tbl = true) (idx : Nat) (m : MsgSchema)
+    (hm : tbl[idx]? = some m) (num : Nat) (fd : FieldSchema) (hf : m.getField num = some fd) :
+    m.proto3 = true ∧ FieldOk fd ∧ num * 8 + 7 < 2 ^ 32 ∧ (∀ k, fd.kind = .msg k → k < tbl.length) :=
+  supportsCanonical_field h hm hf
+
+/-! ## 7. Conversions that are not field-by-field copies -/
+
+/-- **BitVec** (signer sets): every bit vector, of any length — also 0, and not a multiple of 8 — survives
+`build` then `read`. -/
+theorem bitvec_roundtrip (bits : List Bool) :
+    bitvecRead (bitvecBuild bits).1 (bitvecBuild bits).2 = .ok bits :=
+  bitvec_read_build bits
+
+/-- **Duration / Timestamp**: every `time::Duration` whose second count is above `i64::MIN` (or whose nanoseconds are
+not negative) survives `build` then `read`; negative durations are normalised to non-negative nanos on the wire. -/
+theorem duration_roundtrip (d : Dur) (hv : d.Valid) (hmin : i64Min < d.secs ∨ 0 ≤ d.nanos) :
+    durRead (durBuild d).1 (durBuild d).2 = .ok d ∧ 0 ≤ (durBuild d).2 := by
+  refine ⟨duration_read_build d hv hmin, ?_⟩
+  obtain ⟨_, _, h3, _⟩ := hv
+  simp only [durBuild, nanosPerSec] at *
+  split <;> simp <;> omega
+
+example : (⟨-5, -3⟩ : Dur).Valid ∧ (i64Min < (⟨-5, -3⟩ : Dur).secs ∨ 0 ≤ (⟨-5, -3⟩ : Dur).nanos) := by decide
+
+/-- the corner the property excludes is excluded for a reason: `(i64::MIN s, −1 ns)` does not survive -/
+theorem duration_min_excluded :
+    durRead (durBuild ⟨i64Min, -1⟩).1 (durBuild ⟨i64Min, -1⟩).2 ≠ .ok ⟨i64Min, -1⟩ :=
+  duration_min_not_roundtrip
+
+/-- **SocketAddr** as ip (4 or 16 octets) + port. -/
+theorem sockaddr_roundtrip (a : SockAddr) (hv : a.Valid) : sockRead (sockBuild a).1 (sockBuild a).2 = .ok a :=
+  sockaddr_read_build a hv
+
+/-- The derived `Ord` of `ReplicaTimeout` (lexicographic through `View`, `ReplicaCommit`, `CommitQC`, `Signers`,
+signature bytes, `Option`) is a lawful total order — the precondition for a `BTreeMap` keyed by it to have a
+content-determined iteration order. -/
+theorem replicaTimeout_order_lawful : LawfulCmp ReplicaTimeout.cmp := lawful_replicaTimeout
+
+/-- **TimeoutQC**: vote maps holding the same entries — inserted in any two orders — `build` to the same message
+(hence the same bytes, hash, signature input). -/
+theorem timeoutQC_build_order_independent (view : View) (sig : Bytes) (e₁ e₂ : List (ReplicaTimeout × List Bool))
+    (hp : e₁.Perm e₂) (hnd : (e₁.map (·.1)).Nodup) :
+    (TimeoutQC.tree ⟨view, e₁, sig⟩).payload = (TimeoutQC.tree ⟨view, e₂, sig⟩).payload := by
+  rw [timeoutQC_tree_perm view sig hp hnd]
+
+/-- **Schedule**: `Schedule::new` accepts or refuses a validator list independently of its order, and when it
+accepts, `build` writes the same message. -/
+theorem schedule_build_order_independent (l₁ l₂ : List ValidatorInfo) (hp : l₁.Perm l₂) (sel : LeaderSelection) :
+    (scheduleNew l₁ sel).map (fun s => s.tree.payload) = (scheduleNew l₂ sel).map (fun s => s.tree.payload) := by
+  rw [scheduleNew_perm hp sel]
+
+/-- **mux handshake** (repaired F7): equal capability maps encode equally, whatever the insertion order. -/
+theorem muxHandshake_build_order_independent (a₁ a₂ c₁ c₂ : List (Nat × Nat)) (ha : a₁.Perm a₂) (hc : c₁.Perm c₂)
+    (hna : (a₁.map (·.1)).Nodup) (hnc : (c₁.map (·.1)).Nodup) :
+    (muxHandshakeTree a₁ c₁).payload = (muxHandshakeTree a₂ c₂).payload := by
+  rw [muxHandshake_tree_perm ha hc hna hnc]
+
+/-- non-vacuity of the permutation hypotheses -/
+example : [(3, 1), (1, 2)].Perm [(1, 2), (3, 1)] ∧ (([(3, 1), (1, 2)] : List (Nat × Nat)).map (·.1)).Nodup :=
+  ⟨List.Perm.swap _ _ _, by decide⟩
 
 end EraVerif.Props.C09
